@@ -41,8 +41,11 @@ def run(ctx, chk):
     for i in m.infos:
         for ceb in i['records']:
             for f in ceb[3]:
-                if f[0] == 't' and f[1] == 'field' and f[2][0][0] == 'sym':
-                    upd = f[2][0]
+                x = f
+                while x[0] == 't' and x[1] == 'field':
+                    x = x[2][0]
+                if x is not f and (x[0] == 'sym' or (x[0] == 't' and x[1] == 'deref' and x[2][0][0] == 'sym')):
+                    upd = x
     if upd is None:
         chk.missing('C09.Q1', 'updater leaf in the dispatch loop')
         return
